@@ -34,6 +34,8 @@ def run(ctx, crate):
     # must not be counted, or the next erase reaches into the text above the region
     D.rule_height_guard(ctx, crate)
     D.rule_cr_needs_rows(ctx, crate)
+    # "every line emitted ... stays on the terminal": printed text is painted whatever its height
+    D.rule_every_line_painted(ctx, crate)
     D.rule_painted_line_terminated(ctx, crate, kinds=("text",))       # (the bar-line half of the obligation is C19's)
     # a finished bar updated under an exhausted limiter stores rows that were never painted; dropping it then makes the
     # next println erase that many log lines (seed C03c)
